@@ -244,6 +244,18 @@ CLAIMS = {
             "the edit scripts and the matching of changed interfaces (runtime); the same set of changed interfaces in "
             "both directions",
             "§8.6 (added after the design: C11 was first declared not applicable)"),
+    "C26": ("finite-world abstract interpretation of the location predicate and of the matchers that consult it, "
+            "must-pass-through + table rules on the generator, sibling index agreement on the option wiring",
+            "given where a type is defined: a type located in a header to keep is never matched by the private-type "
+            "suppression, one located elsewhere is (R-HDRLOC, 21 worlds); every matcher answers false when the location "
+            "test does, at diff time and at load time alike, so --drop-private-types drops by the same verdict (R-HDRGATE); "
+            "the generator labels the suppression as is_private_type_suppr_spec expects, marks it artificial, records "
+            "every *.h/*.hpp/*.hxx regular file or symlink and nothing else (R-HDRGEN); abidiff applies the headers of "
+            "binary N to binary N (R-HDRWIRE)",
+            "the location recorded for a type, the directory walk, and the propagation of the private category through "
+            "the diff tree (C22's rules) are runtime / other clauses; headers with other suffixes (.hh, none) are not "
+            "recorded by the code and the property does not name suffixes",
+            "§8.6 (added after the design: C26 was first declared not applicable)"),
     "C29": ("who-feeds rule + twin stores + correlated-branch must-pass-through in abicompat, and a shape rule on the "
             "keep-list filter of corpus::exported_decls_builder",
             "the libraries' keep-lists are fed only from the application's undefined symbols, for both library versions "
@@ -338,7 +350,6 @@ NOT_APPLICABLE = {
     "C15": "values decoded from DWARF by elfutils and interpreted by the reader; the oracle is a compiler, nothing static bounds it",
     "C16": "values decoded from DWARF (signatures) against source; runtime oracle",
     "C20": "canonicalisation vs structural equality needs the runtime type graphs",
-    "C26": "set relation over runtime artifacts (types by declaration location)",
     "C35": "generic memory safety / UB of 120 kLOC has no repo-specific structural rule; sanitizers are a dynamic technique",
     "C43": "debug-info format independence: runtime values decoded by elfutils",
 }
